@@ -64,6 +64,52 @@ def unrelated_ok(h):
     return None
 
 
+LEAF = {"dag1": "L", "dag2": "K"}
+
+
+def edit_module(h, built, dname, mname):
+    """The designer's later edit of a module: an instance array, a no-connect and a port-to-port reference of the leaf
+    cell (so that the array, no-connect and port-reference rewrites all have work to do).  Returns False if refused."""
+    m, leaf = built.modules[mname], built.modules[LEAF[dname]]
+    try:
+        ea, eb = m.add(h.Signal(name="ed_a")), m.add(h.Signal(name="ed_b", width=2))
+        m.add(h.InstanceArray(of=leaf, n=2, name="ed_arr")(a=ea, b=eb))
+        m.add(leaf(a=h.NoConn(), b=eb), name="ed_i0")
+        i1 = m.add(leaf(b=eb), name="ed_i1")
+        m.add(leaf(a=i1.a, b=eb), name="ed_i2")
+    except Exception:
+        return False
+    return True
+
+
+def edited_healthy_equal_fresh(h, design_for_fresh, built, dname, offending, tally):
+    """Every healthy non-leaf module, edited after the failure, exports exactly as the same edit of a fresh build does."""
+    from ..build import build
+
+    tally.update(edited=0, refused=0)
+    for mname in list(design_for_fresh["modules"])[::-1]:
+        if mname == LEAF[dname] or contains(design_for_fresh, mname, offending):
+            continue
+        fb = build(design_for_fresh)
+        try:
+            if not edit_module(h, fb, dname, mname):
+                continue
+            ref = h.to_proto(fb.modules[mname]).SerializeToString(deterministic=True)
+        except Exception:
+            continue  # the planted fault reaches this module some other way: not a healthy one
+        if not edit_module(h, built, dname, mname):
+            tally["refused"] += 1
+            continue  # already frozen: refusing the edit is fine
+        tally["edited"] += 1
+        try:
+            got = h.to_proto(built.modules[mname]).SerializeToString(deterministic=True)
+        except Exception as e:
+            return f"healthy module {mname}, edited after the failure, cannot be exported: {short_exc(e)[:120]}"
+        if got != ref:
+            return f"healthy module {mname}, edited after the failure, exports differently from a fresh build with the same edit"
+    return None
+
+
 # ------------------------------------------------------------------------------------------------ injected faults
 def _bomb(item):
     import hdl21 as h
@@ -110,6 +156,11 @@ def _bomb(item):
             if pkg != fresh_packages(dname)[top]:
                 return ("bad", "after removing the fault, the retried export differs from a fresh build")
             return ("ok", "equal")
+        if cont == "edit_healthy":
+            h.reset_elaborator()
+            tally = {}
+            r = edited_healthy_equal_fresh(h, design, built, dname, victim, tally)
+            return ("bad", r) if r else ("ok", f"edited {tally['edited']} refused {tally['refused']}")
         if cont in ("others", "others_parents_first"):
             h.reset_elaborator()
             r = unrelated_ok(h) or healthy_equal_fresh(h, design, built, dname, victim, parents_first=(cont == "others_parents_first"))
@@ -171,6 +222,30 @@ def _real(item):
             if "circular" in short_exc(e).lower() and "circular" not in msg1.lower():
                 return ("bad", f"{cls} at {site}: spurious circular dependency after exporting healthy modules", cls)
         return ("ok", None, cls)
+    if cont == "edit_healthy":
+        tally = {}
+        r = edited_healthy_equal_fresh(h, d2, built, dname, offending, tally)
+        return ("bad", f"{cls} at {site}: {r}", cls) if r else ("ok", f"edited {tally['edited']} refused {tally['refused']}", cls)
+    if cont == "other_parents":
+        # every other module that contains the offending one: what a fresh build of the same faulty design says about it
+        # (an error, as a rule) is what must come back now - never a package made from a half-rewritten sub-module
+        others = [m for m in list(base["modules"])[::-1] if m != top and contains(base, m, offending)]
+        for m in others:
+            try:
+                ref = h.to_proto(build(d2).modules[m]).SerializeToString(deterministic=True)
+            except Exception:
+                ref = None
+            try:
+                got = h.to_proto(built.modules[m]).SerializeToString(deterministic=True)
+            except Exception as e:
+                if "circular" in short_exc(e).lower() and "circular" not in msg1.lower():
+                    return ("bad", f"{cls} at {site}: spurious circular dependency when exporting {m} after the failure", cls)
+                continue
+            if ref is None:
+                return ("bad", f"{cls} at {site}: after the failed call, {m} (which contains the faulty {offending}) exports a package; a fresh build refuses it", cls)
+            if got != ref:
+                return ("bad", f"{cls} at {site}: after the failed call, {m} exports differently from a fresh build", cls)
+        return ("ok", f"parents:{len(others)}", cls)
     if cont == "repair":
         # the designer edits the offending connection back to what the valid design has, then retries
         parts = site.split("/")[0].split(".")
@@ -291,7 +366,7 @@ def run(ctx):
             victims = [m for m in design["modules"] if contains(design, top, m)]
             for pos in range(11):
                 for v in victims:
-                    for cont in ("retry", "disarm_retry", "others", "others_parents_first"):
+                    for cont in ("retry", "disarm_retry", "others", "others_parents_first", "edit_healthy"):
                         items.append((dname, top, pos, v, cont))
     res = ctx.pmap(_bomb, items, chunk=10)
     for it, (status, detail) in zip(items, res):
@@ -309,12 +384,14 @@ def run(ctx):
             base = dags.with_top(dags.DAGS[dname](), top)
             n = len(mutate.classified(base))
             stride = 1 if not ctx.quick else 2
-            for k in range(ctx.seed % stride, n, stride):
+            for k in range(n):
                 for entry in ("to_proto",) if ctx.quick else ("elaborate", "to_proto", "netlist"):
-                    for cont in ("retry", "others", "others_parents_first", "repair"):
-                        ritems.append((dname, top, k, entry, cont))
+                    for cont in ("retry", "others", "others_parents_first", "other_parents", "edit_healthy", "repair"):
+                        # the other-parents continuation runs on every classified mutant in both tiers
+                        if cont == "other_parents" or k % stride == ctx.seed % stride:
+                            ritems.append((dname, top, k, entry, cont))
     if ctx.quick:
-        ctx.cap("real design faults: every 2nd classified mutant of each DAG (offset VERIF_SEED), entry point to_proto only, in the quick tier")
+        ctx.cap("real design faults: every 2nd classified mutant of each DAG (offset VERIF_SEED) for the retry / others / repair continuations, entry point to_proto only, in the quick tier")
     res = ctx.pmap(_real, ritems, chunk=10)
     for it, (status, detail, cls) in zip(ritems, res):
         if status == "skip":
